@@ -99,6 +99,7 @@ func (t *c05Tpt) DialWithUpdates(ctx context.Context, a ma.Multiaddr, p peer.ID,
 		if h.parked[id] == pk {
 			delete(h.parked, id)
 		}
+		h.newEnds = append(h.newEnds, id)
 		h.mu.Unlock()
 	}()
 	for {
@@ -189,6 +190,7 @@ type c05W struct {
 	order     map[string]int
 	parked    map[int64]*c05Park
 	newDials  []int64
+	newEnds   []int64
 	dialCount map[int64]int
 
 	reqs    []*c05Req
@@ -204,7 +206,7 @@ type c05Req struct {
 	resch chan dialResponse
 }
 
-func newC05W() *c05W {
+func newC05Swarm() *c05W {
 	h := &c05W{
 		addrID: map[string]int64{}, addrs: map[int64]ma.Multiaddr{}, delays: map[string]time.Duration{},
 		order: map[string]int{}, parked: map[int64]*c05Park{}, dialCount: map[int64]int{},
@@ -239,9 +241,16 @@ func newC05W() *c05W {
 	if err := s.AddTransport(h.relay); err != nil {
 		panic(err)
 	}
-	s.limiter = newDialLimiterWithParams(s.dialAddr, 100000, 100000)
 	_, rp, _ := ic.GenerateEd25519Key(rand.Reader)
 	h.p, _ = peer.IDFromPublicKey(rp)
+	return h
+}
+
+func newC05W() *c05W {
+	h := newC05Swarm()
+	s := h.s
+	h.line = []int64{2}
+	s.limiter = newDialLimiterWithParams(s.dialAddr, 100000, 100000)
 	h.reqch = make(chan dialRequest)
 	h.adctx, h.cancel = context.WithCancel(context.Background())
 	h.w = newDialWorker(s, h.p, h.reqch, nil)
